@@ -352,6 +352,8 @@ def plan(tier):
         P.append(("w3-n2", 3, 2, False, None, 0))
         for W in (1, 2, 4, 8, 16, 32, 64, 128):
             P.append(("w%d-n1" % W, W, 1, True, None, 0))
+        P.append(("w1-n2", 1, 2, True, None, 0))      # the 1-bit rewrite rules need 1-bit operators as operands
+        P.append(("w2-n2", 2, 2, False, None, 0))
         P.append(("w3-n1-thr8", 3, 1, True, None, 8))
         P.append(("w8-n1-thr2", 8, 1, True, None, 2))
     else:
